@@ -166,9 +166,15 @@ Section Sanitize.
     then Ok (field_idents props, if typed_additional then [s_extra] else [])
     else Err.
 
-  (* util.rs:798 / lib.rs:661: one item per definition, no uniqueness test *)
+  (* util.rs:798 get_type_name for Name::Required(def): the type name of a definition *)
   Definition def_idents (defs : list ustring) : list ustring :=
     List.map (fun d => sanitize d Pascal) defs.
+
+  (* lib.rs add_ref_types_impl (fix c22ef06): the definitions of ONE call are
+     converted in order; `batch_names.insert` reports Err(InvalidSchema "... map
+     to the same type name") at the first type name seen twice *)
+  Definition add_definitions (defs : list ustring) : outcome (list ustring) :=
+    if unique (def_idents defs) then Ok (def_idents defs) else Err.
 
   (* lib.rs:650-655: settings.replace.get(&sanitize(def_name, Pascal)) *)
   Fixpoint assoc {T} (k : ustring) (m : list (ustring * T)) : option T :=
@@ -274,6 +280,13 @@ Definition run_fields (cls : CharClasses) (props : list ustring) (typed_addition
   | Ok (fs, fl) =>
       show_list (List.map (fun p => show_ustring (fst p) ++ "/" ++ show_rename (snd p))%string fs
                  ++ List.map (fun n => show_ustring n ++ "/flatten")%string fl)
+  | Err => "err"
+  | Panic => "panic"
+  end.
+
+Definition run_defs (cls : CharClasses) (defs : list ustring) : string :=
+  match add_definitions cls defs with
+  | Ok ids => show_list (List.map show_ustring ids)
   | Err => "err"
   | Panic => "panic"
   end.
